@@ -40,8 +40,28 @@ func concStr(v Value) string {
 	return s.S
 }
 
+// selfHash is the deterministic input generator of the translator self-check (same function in vh.go.tmpl).
+func selfHash(name string, seed uint64) uint64 {
+	h := uint64(14695981039346656037) ^ seed*0x9E3779B97F4A7C15
+	for i := 0; i < len(name); i++ {
+		h ^= uint64(name[i])
+		h *= 1099511628211
+	}
+	h ^= h >> 29
+	h *= 0xBF58476D1CE4E5B9
+	h ^= h >> 32
+	return h
+}
+
 func (c *Ctx) newInput(st *State, name string, w int, kind string) *Term {
 	key := st.uniq(name)
+	if c.cfg.SelfSeed != 0 {
+		v := selfHash(key, c.cfg.SelfSeed)
+		if w == 0 {
+			return c.tb.Bool(v&1 == 1)
+		}
+		return c.tb.Const(w, v)
+	}
 	t := c.tb.Var(key, w)
 	st.inputs = append(st.inputs, inputRec{Key: key, T: t, Kind: kind})
 	return t
@@ -74,6 +94,9 @@ func (c *Ctx) intrinsic(st *State, fn *ssa.Function, args []Value) (intrRes, boo
 			for i := uint64(0); i < n.Val; i++ {
 				k := fmt.Sprintf("%s[%d]", key, i)
 				t := tb.Var(k, 8)
+				if c.cfg.SelfSeed != 0 {
+					t = tb.Const(8, selfHash(k, c.cfg.SelfSeed))
+				}
 				st.inputs = append(st.inputs, inputRec{Key: k, T: t, Kind: "vhBytes"})
 				arr = arr.Write(tb, tb.Const(64, i), t)
 			}
@@ -86,6 +109,15 @@ func (c *Ctx) intrinsic(st *State, fn *ssa.Function, args []Value) (intrRes, boo
 				return intrRes{true, nil}, true
 			}
 			arr := &SymArr{W: 8, Len: n, Base: key}
+			if c.cfg.SelfSeed != 0 {
+				if !n.IsConst() {
+					unsup("selfcheck: vhArb with symbolic length")
+				}
+				arr = &SymArr{W: 8, Len: n}
+				for i := uint64(0); i < n.Val; i++ {
+					arr = arr.Write(tb, tb.Const(64, i), tb.Const(8, selfHash(fmt.Sprintf("%s[%d]", key, i), c.cfg.SelfSeed)))
+				}
+			}
 			st.inputs = append(st.inputs, inputRec{Key: key, UF: key, Len: n, Kind: "vhArb"})
 			id := c.newObj(st, arr)
 			return done(&SliceV{Arr: Ptr{Obj: id}, Off: tb.Const(64, 0), Len: n, Cap: n})
@@ -107,6 +139,13 @@ func (c *Ctx) intrinsic(st *State, fn *ssa.Function, args []Value) (intrRes, boo
 			if st.done != nil {
 				return intrRes{true, nil}, true
 			}
+			return done(nil)
+		case "vhOut":
+			t := args[1].(*Term)
+			if !t.IsConst() {
+				unsup("selfcheck: vhOut of a non-constant value")
+			}
+			st.notes = append(st.notes, fmt.Sprintf("OUT %s=%d", concStr(args[0]), t.Val))
 			return done(nil)
 		case "vhReach":
 			tag := concStr(args[0])
